@@ -130,3 +130,11 @@ func uniform(t *rapid.T, label string, n int) int {
 	x ^= x >> 31
 	return int(x % uint64(n))
 }
+
+// newConnRaw is newConn without the panic guard (callers guard themselves).
+func newConnRaw(tr net.Conn, keys []*hello.Key) (*ech.Conn, error) {
+	if keys != nil {
+		return ech.NewConn(context.Background(), tr, ech.WithKeys(echKeys(keys...)))
+	}
+	return ech.NewConn(context.Background(), tr)
+}
